@@ -257,7 +257,10 @@ def build_cases(tier="quick"):
 
     from contracts import c11
 
-    refq = [Case(f"{PROP}/solve.dump#refined-query-keeps-its-constraints", c.case, c.harness, replay=c.replay, sources=c.sources) for c in c11.dump_cases()]
+    from contracts import c05
+
+    refq0 = [Case(f"{PROP}/solve.solve_low_level#query-of-this-path", c.case, c.harness, replay=c.replay, sources=c.sources) for c in c05.timeout_cases()]
+    refq = refq0 + [Case(f"{PROP}/solve.dump#refined-query-keeps-its-constraints", c.case, c.harness, replay=c.replay, sources=c.sources) for c in c11.dump_cases()]
     ref = refq + [Case(f"{PROP}/sevm.Path.branch#concretization-ownership", c.case, c.harness, replay=c.replay, sources=c.sources) for c in c02.path_cases() if "Path.branch" in c.unit]
     return from_result_cases() + validity_cases() + parse_model_cases() + value_cases() + classification_cases() + ref
 
